@@ -263,8 +263,6 @@ def gen_env(rng, feats, spec_feats):
         e.update(rng.choice([{"APP_SUBCOMMAND": "fit", "APP_FIT__LR": "0.4"}, {"APP_SUBCOMMAND": "nope"}, {"APP_SUBCOMMAND": "fit", "APP_FIT__LR": "x"}, {"APP_SUBCOMMAND": "test"}, {"APP_FIT__LR": "3"}]))
     if "inner" in spec_feats and rng.random() < 0.2:
         e["APP_INNER"] = rng.choice(["inner.yaml", "missing.yaml", "fault.yaml", '{"q": 2}', "[1"])
-    if rng.random() < 0.1:
-        e["JSONARGPARSE_DEBUG"] = rng.choice(["", "1"])
     return e
 
 
@@ -475,7 +473,7 @@ def execute(sc, ctx):
         if o.kind == "ret":
             ok = True
         elif o.kind == "AE":
-            ok = not eoe or "JSONARGPARSE_DEBUG" in json.dumps(op)
+            ok = not eoe or False
             why = "ArgumentError raised although exit_on_error=True: " + o.text[:200]
             sim.probe("rejected-AE")
             ctx.nontrivial = True
